@@ -10,6 +10,7 @@ import (
 	"go.etcd.io/bbolt"
 	"pgregory.net/rapid"
 
+	"verifharness/pbt"
 	"verifharness/sim"
 	"verifharness/stats"
 )
@@ -184,9 +185,14 @@ func TestC04LiquidPaymentWindow(t *testing.T) {
 
 // TestC04WindowHelperDifferential compares checkPaymentWindow / validateClaimInvoice
 // / the per-chain limits with big-integer models over the whole uint32 range.
-func TestC04WindowHelperDifferential(t *testing.T) {
+func TestC04WindowHelperDifferential(t *testing.T) { propC04WindowHelperDifferential(t) }
+
+// FuzzC04WindowHelperDifferential drives the same property body with Go's coverage-guided fuzzer (thorough tier).
+func FuzzC04WindowHelperDifferential(f *testing.F) { propC04WindowHelperDifferential(f) }
+
+func propC04WindowHelperDifferential(t testing.TB) {
 	col := stats.Get("C04.helpers")
-	rapid.Check(t, func(t *rapid.T) {
+	pbt.Run(t, func(t *rapid.T) {
 		anchor := rapid.OneOf(rapid.Uint32(), rapid.SampledFrom([]uint32{0, 1, 59, 60, 1<<32 - 1, 1<<32 - 60, 1<<32 - 61})).Draw(t, "anchor")
 		delta := rapid.SampledFrom([]int64{-2, -1, 0, 1, 58, 59, 60, 61, 1 << 31}).Draw(t, "delta")
 		cur := uint32(int64(anchor) + delta)
